@@ -105,6 +105,14 @@ func ruleC32(c *Ctx) {
 	i2 := c.Func(pConn, "incr2Nonce")
 	if i2 != nil {
 		ok := len(callsTo(i2, false, "p2p/connection.incrNonce")) == 2 && len(allCalls(i2, false)) == 2
+		if calls := callsTo(i2, false, "p2p/connection.incrNonce"); !ok && len(calls) == 1 && len(allCalls(i2, false)) == 1 {
+			// `for k := 0; k < 2; k++ { incrNonce(nonce) }`: one call in a loop that runs exactly twice
+			if h, _ := innermostLoop(calls[0].Block()); h != nil {
+				if n, known := constTripCount(h); known && n == 2 {
+					ok = true
+				}
+			}
+		}
 		for _, b := range i2.Blocks {
 			for _, in := range b.Instrs {
 				if _, isSt := in.(*ssa.Store); isSt {
@@ -517,15 +525,28 @@ func ruleC36(c *Ctx) {
 				if ri.Success {
 					continue
 				}
-				// facts: localhostAuthn = false and HasPrefix = true, with the prefix constant in the HasPrefix call
-				have := factsAt(ri.Ret)
-				if !have["call:(*net/http/authn.API).localhostAuthn = false"] || !have["call:strings.HasPrefix = true"] {
+				// facts: localhostAuthn = false and HasPrefix = true, with the prefix constant in the HasPrefix call;
+				// taken at each origin of the returned error (several refusals may share one return statement)
+				if ri.ErrIdx < 0 || ri.ErrIdx >= len(ri.Ret.Results) {
 					continue
 				}
-				// which prefix: the dominating HasPrefix call with that constant
-				for _, s := range callsTo(au, false, "strings.HasPrefix") {
-					if k, ok := s.Common().Args[1].(*ssa.Const); ok && k.Value != nil && strings.Trim(k.Value.ExactString(), "\"") == pfx && s.Block().Dominates(ri.Ret.Block()) {
-						found = true
+				for _, og := range valueOrigins(canon(ri.Ret.Results[ri.ErrIdx]), ri.Ret) {
+					have := factsAt(og.at)
+					if !have["call:(*net/http/authn.API).localhostAuthn = false"] || !have["call:strings.HasPrefix = true"] {
+						continue
+					}
+					// which prefix: the dominating HasPrefix call with that constant whose true edge leads here
+					for _, s := range callsTo(au, false, "strings.HasPrefix") {
+						k, ok := s.Common().Args[1].(*ssa.Const)
+						if !ok || k.Value == nil || strings.Trim(k.Value.ExactString(), "\"") != pfx || !s.Block().Dominates(og.at.Block()) {
+							continue
+						}
+						// the branch on this very call must be the one taken (true side dominates the origin)
+						for _, r := range *s.Value().Referrers() {
+							if iff, isIf := r.(*ssa.If); isIf && iff.Block().Succs[0].Dominates(og.at.Block()) {
+								found = true
+							}
+						}
 					}
 				}
 			}
@@ -561,7 +582,7 @@ func ruleC36(c *Ctx) {
 				nTok++
 			}
 		}
-		c.Require("mustpass", fname(au)+": a nil error is returned only on the allow-list (dashboard, equity, loopback); otherwise the token check's error", okAdmit && nNil >= 3 && nTok == 1, "%d nil returns, %d token-error return(s) %s", nNil, nTok, d)
+		c.Require("mustpass", fname(au)+": a nil error is returned only on the allow-list (dashboard, equity, loopback); otherwise the token check's error", okAdmit && nNil >= 1 && nTok == 1, "%d nil returns, %d token-error return(s) %s", nNil, nTok, d)
 	}
 	ck := c.Func(pk, "(*API).cachedTokenAuthnCheck")
 	if ck != nil {
